@@ -43,4 +43,16 @@ theorem shapeF_logpdf_eq (lpois : ℝ → ℝ → ℝ) (lnorm : ℝ → ℝ → 
         | (exfalso; linarith))
     | (simp only [Gen.shapeF_bin0, Gen.shapeF_bin1, C01.lit0, C01.lit1] <;> first | rfl | (norm_num <;> first | rfl | ring1 | ring_nf))
 
+set_option maxHeartbeats 3200000 in
+/-- shapeH: `Model.logpdf` as computed = the template, for all parameters, all data and all positive yields / uncertainties -/
+theorem shapeH_logpdf_eq (lpois : ℝ → ℝ → ℝ) (lnorm : ℝ → ℝ → ℝ → ℝ) (s0 s1 b0 b1 e0 p_lumi p_mu p_stat_SR_0 p_stat_SR_1 d0 d1 a0 a1 a2 : ℝ) (_hs0 : 0 < s0) (_hs1 : 0 < s1) (_hb0 : 0 < b0) (_hb1 : 0 < b1) (_he0 : 0 < e0) :
+    Gen.shapeH_logpdf realPrim lpois lnorm s0 s1 b0 b1 e0 p_lumi p_mu p_stat_SR_0 p_stat_SR_1 d0 d1 a0 a1 a2 = Gen.shapeH_logpdf_ref realPrim lpois lnorm s0 s1 b0 b1 e0 p_lumi p_mu p_stat_SR_0 p_stat_SR_1 d0 d1 a0 a1 a2 := by
+  unfold Gen.shapeH_logpdf Gen.shapeH_logpdf_ref
+  simp only [C01.lit0, C01.lit1]
+  first
+    | (split_ifs <;> first
+        | (simp (config := { maxSteps := 2000000 }) only [Gen.shapeH_bin0, Gen.shapeH_bin1, C01.lit0, C01.lit1, if_true, if_false, *] <;> first | rfl | (norm_num <;> first | rfl | ring1))
+        | (exfalso; linarith))
+    | (simp only [Gen.shapeH_bin0, Gen.shapeH_bin1, C01.lit0, C01.lit1] <;> first | rfl | (norm_num <;> first | rfl | ring1 | ring_nf))
+
 end Pyhf.Props.C02
